@@ -115,6 +115,11 @@ func (en *engine) build(s *opSpec, path string, combo []argv, f int) (script []b
 		return callScript(driver, "run", 15, prog), fAll, []util.Uint160{driver, s.Self}, true
 	case "u": // entry(All) -> UA.run with flags f, one op
 		return callScript(w.UA, "run", f, combo[0].V), fAll, []util.Uint160{w.UA}, true
+	case "token": // entry(All) -> T.<family><f>(All) -> CALLT with token flags f -> Self.Method
+		if hasFrag(combo) {
+			return nil, 0, nil, false
+		}
+		return callScript(w.T.Hash, fmt.Sprintf("%s%d", s.TokFam, f), 15, vals(combo)...), fAll, []util.Uint160{w.T.Hash, s.Self}, true
 	case "entry": // the raw system call in an entry script loaded with f
 		raw := s.Raw(combo)
 		return raw, f, []util.Uint160{hash.Hash160(raw)}, true
@@ -148,7 +153,7 @@ func callEffect(e *effects, self []util.Uint160, lax bool) bool {
 // self) is a deployed, non-native contract.
 func (en *engine) onlyDeployedExtra(e *effects, self []util.Uint160) bool {
 	w := en.w
-	dep := func(h util.Uint160) bool { return h == w.UA || h == w.UB || h == w.R.Hash }
+	dep := func(h util.Uint160) bool { return h == w.UA || h == w.UB || h == w.R.Hash || h == w.T.Hash }
 	n := 0
 	for h := range e.ctxs {
 		if slicesContains(self, h) {
@@ -364,6 +369,9 @@ func flattenInts(it stackitem.Item, out *[]int) {
 }
 
 func (w *world) chainOne(r *vk.Run, cc *chainCase, exact *vk.Counter) (violated bool) {
+	if strings.HasPrefix(cc.Shape, "calltoken:") {
+		return w.chainToken(r, cc, exact)
+	}
 	k := strings.Split(cc.Shape, ">")
 	e := w.run(w.chainScript(k[0], k[1], k[2], cc.F1, cc.F2, cc.Len), fAll)
 	cc.State, cc.Fault = e.State, e.Fault
@@ -415,8 +423,60 @@ func (w *world) chainOne(r *vk.Run, cc *chainCase, exact *vk.Counter) (violated 
 	return false
 }
 
+// chainToken: entry(All) -> T.<family><f2> called with flags f1 -> CALLT (token
+// flags f2) -> UA.run / UA.runSafe logging its GetCallFlags: one level of the
+// 16x16 product entered through a method token instead of System.Contract.Call.
+func (w *world) chainToken(r *vk.Run, cc *chainCase, exact *vk.Counter) bool {
+	fam := "UArun"
+	if cc.Shape == "calltoken:safe" {
+		fam = "UArunSafe"
+	}
+	e := w.run(callScript(w.T.Hash, fmt.Sprintf("%s%d", fam, cc.F2), cc.F1, []any{[]any{chainx.OpGetFlags}}), fAll)
+	cc.State, cc.Fault = e.State, e.Fault
+	if e.State != "HALT" {
+		r.Outcome("chain:calltoken:FAULT")
+		chainFault.Inc()
+		return false
+	}
+	var seen []int
+	for _, it := range e.stack {
+		flattenInts(it, &seen)
+	}
+	cc.Seen = seen
+	if len(seen) != 1 {
+		cc.What = fmt.Sprintf("expected 1 logged flag set, got %v", seen)
+		r.Violation(fmt.Sprintf("chain:%s:%s:%s:unexpected-log", cc.Shape, fname(cc.F1), fname(cc.F2)), cc)
+		return true
+	}
+	if got := seen[0]; got&^cc.F1 != 0 || got&^cc.F2 != 0 {
+		cc.What = fmt.Sprintf("callee reached through CALLT runs with %s: caller has %s, token flags %s", fname(got), fname(cc.F1), fname(cc.F2))
+		if chainVio.Add(1) <= 3 {
+			r.Violation(fmt.Sprintf("chain:%s:%s:%s:flags-grew", cc.Shape, fname(cc.F1), fname(cc.F2)), cc)
+		} else {
+			r.Outcome("chain:flags-grew(not reported one by one)")
+		}
+		return true
+	}
+	want := cc.F1 & cc.F2
+	if fam == "UArunSafe" {
+		want &^= fW | fN
+	}
+	if seen[0] == want {
+		exact.Inc()
+	}
+	r.Outcome("chain:calltoken:HALT")
+	return false
+}
+
 func chainCases() []*chainCase {
 	var out []*chainCase
+	for _, k := range []string{"calltoken:run", "calltoken:safe"} {
+		for f1 := 0; f1 < 16; f1++ {
+			for f2 := 0; f2 < 16; f2++ {
+				out = append(out, &chainCase{Sub: "chain", Shape: k, F1: f1, F2: f2, Len: 1})
+			}
+		}
+	}
 	for _, k1 := range []string{"run", "safe"} {
 		for f1 := 0; f1 < 16; f1++ {
 			out = append(out, &chainCase{Sub: "chain", Shape: k1 + ">->-", F1: f1, F2: 0, Len: 1})
@@ -458,7 +518,7 @@ func (w *world) safeUSpecs() []*opSpec {
 		{"[try[put]]", []any{[]any{chainx.OpTry, []any{put}, []any{}}}},
 		{"[try[run-UB[put,throw]]]", []any{[]any{chainx.OpTry, []any{[]any{chainx.OpRun, ub, 15, []any{put, []any{chainx.OpThrow}}}}, []any{}}}},
 	}
-	s := &opSpec{Op: "safe:U.runSafe", Group: "u", Self: w.UA, Method: "runSafe", Safe: true, Paths: []string{"direct", "viaAreq"}}
+	s := &opSpec{Op: "safe:U.runSafe", Group: "u", Self: w.UA, Method: "runSafe", Safe: true, Paths: []string{"direct", "viaAreq", "token"}, TokFam: "UArunSafe"}
 	for _, p := range progs {
 		s.Combos = append(s.Combos, []argv{p})
 	}
@@ -596,8 +656,8 @@ func TestCheck(t *testing.T) {
 	}
 	cov := map[string]any{
 		"states":                                      en.states.Len() + len(ccs) + int(ps.pure),
-		"transitions":                                 int(en.execs.Get()) + chainDone + int(ps.real+ps.block) + btxs,
-		"traces_validated_against_impl":               int(en.execs.Get()) + chainDone + int(ps.real+ps.block+ps.pure),
+		"transitions":                                 int(en.execs.Get()) + chainDone + int(ps.real+ps.block+ps.token) + btxs,
+		"traces_validated_against_impl":               int(en.execs.Get()) + chainDone + int(ps.real+ps.block+ps.token+ps.pure),
 		"flag_sets":                                   16,
 		"operations":                                  len(specs),
 		"operations_native_methods":                   len(nat),
@@ -683,7 +743,7 @@ func runPerm(r *vk.Run, ps *permStats) map[string]any {
 	for _, cs := range dep {
 		for _, c := range pw.callees {
 			for _, md := range c.Methods {
-				pjs = append(pjs, pj{cs, c, md})
+				pjs = append(pjs, pj{cs: cs, c: c, md: md})
 			}
 		}
 	}
@@ -699,6 +759,39 @@ func runPerm(r *vk.Run, ps *permStats) map[string]any {
 		}
 		r.Outcome(sub + ":" + got)
 		r.Sample(map[string]any{"sub": sub, "caller_permissions": j.cs.String(), "callee": j.c.Name, "callee_groups": j.c.Groups, "method": j.md.Name, "safe": j.md.Safe, "result": got})
+	}
+	// the same matrix through method tokens for the callers with at most one permission
+	var tks []pj
+	{
+		var tcs []callerSpec
+		for _, cs := range dep {
+			if len(cs.Perms) <= 1 {
+				tcs = append(tcs, cs)
+			}
+		}
+		if err := pw.deployTokenCallers(tcs); err != nil {
+			fmt.Println("CHECK-ERROR: cannot deploy the token callers:", err)
+			os.Exit(3)
+		}
+		for _, cs := range tcs {
+			k := 0
+			for _, c := range pw.callees {
+				for _, md := range c.Methods {
+					tks = append(tks, pj{cs: cs, c: c, md: md, tok: k})
+					k++
+				}
+			}
+		}
+	}
+	tokenMatrix := func(sub string) {
+		r.Parallel(len(tks), func(i int) {
+			j := tks[i]
+			got, e := pw.tokenCall(j.cs, j.tok, j.md)
+			ps.mu.Lock()
+			ps.token++
+			ps.mu.Unlock()
+			judge(sub, j, got, e)
+		})
 	}
 	realMatrix := func(sub string) {
 		r.Parallel(len(pjs), func(i int) {
@@ -716,6 +809,7 @@ func runPerm(r *vk.Run, ps *permStats) map[string]any {
 		})
 	}
 	realMatrix("perm-real")
+	tokenMatrix("perm-token")
 	// observed, not judged: a script loaded dynamically by a caller WITHOUT any
 	// permission calls a non-safe method (the loaded script is not a deployed
 	// contract; it runs with read-only flags at most)
@@ -786,6 +880,7 @@ func runPerm(r *vk.Run, ps *permStats) map[string]any {
 		pw.n = m
 		restarted = true
 		realMatrix("perm-real-after-restart")
+		tokenMatrix("perm-token-after-restart")
 		blockSubset("perm-block-after-restart")
 	}
 	info := map[string]any{
@@ -797,6 +892,7 @@ func runPerm(r *vk.Run, ps *permStats) map[string]any {
 		"pure_evaluations":              ps.pure,
 		"real_calls_test_vm":            ps.real,
 		"real_calls_in_blocks":          ps.block,
+		"real_calls_through_tokens":     ps.token,
 		"matrix_repeated_after_restart": restarted,
 		"real_allowed":                  ps.allowed,
 		"real_denied":                   ps.denied,
@@ -824,9 +920,10 @@ func runPerm(r *vk.Run, ps *permStats) map[string]any {
 }
 
 type pj struct {
-	cs callerSpec
-	c  *callee
-	md calleeMethod
+	cs  callerSpec
+	c   *callee
+	md  calleeMethod
+	tok int // index of the method token (token matrix)
 }
 
 func (pw *permWorld) buildCallTxs(val []neotest.Signer, part []pj) ([]*transaction.Transaction, error) {
@@ -959,6 +1056,19 @@ func replay(r *vk.Run) {
 				os.Exit(3)
 			}
 		}
+		viaToken, tokIdx := strings.HasPrefix(pc.Sub, "perm-token"), 0
+		if viaToken {
+			if err := pw.deployTokenCallers(dep); err != nil {
+				fmt.Println("CHECK-ERROR:", err)
+				os.Exit(3)
+			}
+			for _, t := range pw.permTokens() {
+				if t.Hash == c.Hash && t.Method == pc.Method {
+					break
+				}
+				tokIdx++
+			}
+		}
 		if strings.Contains(pc.Sub, "after-restart") {
 			m, err := pw.n.Reopen()
 			if err != nil {
@@ -979,7 +1089,11 @@ func replay(r *vk.Run) {
 			want := verdict(allowedBy(pc.Caller.Perms, c, pc.Method))
 			real := "n/a"
 			if deployable(pc.Caller) {
-				real, _ = pw.realCall(dep[0], c, md)
+				if viaToken {
+					real, _ = pw.tokenCall(dep[0], tokIdx, md)
+				} else {
+					real, _ = pw.realCall(dep[0], c, md)
+				}
 			}
 			wantReal := verdict(md.Safe || allowedBy(pc.Caller.Perms, c, pc.Method))
 			fmt.Printf("replay %d: %s -> %s.%s: CanCall=%s (predicate %s), real call=%s (predicate %s)\n", i, pc.Caller.String(), pc.Callee, pc.Method, pure, want, real, wantReal)
